@@ -97,6 +97,15 @@ pub fn run_single(text: &str, ty: &Ty, cfg: &Cfg) -> String {
         crate::tyseed::TUPLE_AS_STRUCT.with(|f| f.set(false));
         if ans2 != ans { return format!("TUPLE-STRUCT-DIFFERS-FROM-TUPLE as tuple: {ans} ; as tuple struct: {ans2}"); }
     }
+    // presentation wrappers deserialize transparently: the same document read with every type position wrapped
+    // (LitString / FoldString, FlowSeq, FlowMap, Commented, SpaceAfter) gives the same answer as the bare types
+    {
+        let mode = 1 + ((text.len() + ty.tokens().len()) % 4) as u8;
+        crate::tyseed::WRAP_MODE.with(|w| w.set(mode));
+        let wrapped = once();
+        crate::tyseed::WRAP_MODE.with(|w| w.set(0));
+        if wrapped != ans { return format!("WRAPPED-TYPE-DIFFERS-FROM-BARE bare: {ans} ; wrapped (mode {mode}): {wrapped}"); }
+    }
     // the validating entry points run the same pipeline with the path recorder attached: with a type whose validation
     // never objects they must answer exactly as the plain entry point does (value or error, kind and location)
     CUR_TY.with(|t| *t.borrow_mut() = Some(ty.clone()));
